@@ -32,7 +32,8 @@ CLAIM = dict(
     "in the root with composed offsets; induction over the program), nest_offsets (the composed offset is the accumulated sum of the normalised slice starts, explicitly), subCoords_unfold (definitional), time_slice / time_interval bookkeeping, "
     "stack_slice_rel / stack_slice_dated / stack_slice_shared_reference / stack_slice_dates (stack then time_slice: data and dates exactly; relative time = the stored one for images "
     "without dates, date_i - ref_0 for dated images with arbitrary stored times and reference dates, hence the original exactly when the images share one reference date - "
-    "this is how the property's stack sentence is read). DATA ON ARRAYS (DarsiaModel.ImageArr: pixel array = function from the raw "
+    "this is how the property's stack sentence is read). DATA ON ARRAYS for EVERY payload layout - scalar, vector and tensor-valued (component multi-index of any rank; time axis addressed at position space_dim as in the code) - "
+    "(DarsiaModel.ImageArr: pixel array = function from the raw "
     "numpy index to a value tag; numpy index arithmetic of subregion/time_slice/time_interval/np.stack): extract_data_eq (for every root - scalar/vector, single/series - "
     "and every extraction program: entry (t,v,c) of the result = root entry (root time index of slab t, v + composed offset, c)), extract_data_inv, append_data_eq, "
     "stack_slice_data. append_offset_keeps_times (an explicit offset, 0 included, "
